@@ -22,6 +22,7 @@ def parseOutcome (w : String) : Option Outcome :=
     | some t, some l => some (.accepted t l (parseDisc d))
     | _, _ => none
   | ["down", t] => t.toNat?.map .downgrade
+  | ["predisc"] => some .preDisc
   | _ => none
 
 def showObs : Obs → String
